@@ -87,10 +87,53 @@ class C18(Prop):
                 for opc in (1, 2, 9, 0):
                     for pre in ((0, 2, 3, 4, 5, 6, 7, 8, 9) if n < 300 else (0, 3)):
                         out.append('FF g%d %s %d %s %s %d' % (k, '1000' if opc else '0000', opc, key.hex() if key else '-', ws.hx(payload), pre)); k += 1
+        # the raw-frame API: frames written through FrameSocket (format_into_buf into the shared buffer) and read back by a
+        # second FrameSocket (header parse + payload split), any flags / non-reserved opcode / explicit key
+        for i in range(300 if quick else 6000):
+            frames = []
+            for _ in range(rng.randint(1, 4)):
+                n = rng.choice([0, 1, 5, 125, 126, 127, 300])
+                key = rng.choice([None, KEYS[0], KEYS[3]])
+                opc = rng.choice([0, 1, 2, 8, 9, 10])
+                flags = format(rng.randint(0, 15), '04b')
+                frames.append((flags, opc, key, bytes(rng.randrange(256) for _ in range(n))))
+            ops = ['%s:%s:%d:%s:%s' % (rng.choice('ws'), fl, o, ky.hex() if ky else '-', ws.hx(pl)) for fl, o, ky, pl in frames] + ['f']
+            wr = [rng.choice(['a:1', 'a:3', 'a:100000', 'e:wb']) for _ in range(rng.randint(0, 4))]
+            out.append('FS w%d - %s - %s -' % (k, ','.join(ops), ','.join(wr) if wr else '-')); k += 1
+            wire = b''.join(py_format(fl, o, ky, len(pl)) + (ws.xor_mask(pl, ky) if ky else pl) for fl, o, ky, pl in frames)
+            cuts = sorted(rng.sample(range(1, len(wire)), min(len(wire) - 1, rng.randint(0, 3)))) if len(wire) > 1 else []
+            chunks = [wire[a:b] for a, b in zip([0] + cuts, cuts + [len(wire)])]
+            out.append('FS r%d - %s %s - -' % (k, ','.join(['r:none'] * (len(frames) + len(chunks) + 1)), ','.join('d:' + ws.hx(c) for c in chunks if c) or '-')); k += 1
         return out
 
     def monitor(self, case_line, trace, mline):
         f = case_line.split(' ')
+        if f[0] == 'FS':
+            ots = ws.parse_trace(trace)
+            ops = f[3].split(',')
+            if f[1].startswith('w'):
+                # everything accepted by the transport is a prefix of the independently encoded frames, all of it after an Ok flush
+                exp = b''
+                for o in ops:
+                    p = o.split(':')
+                    if p[0] in 'ws' and len(p) == 5:
+                        key = None if p[3] == '-' else bytes.fromhex(p[3])
+                        pl = ws.unhx(p[4])
+                        exp += py_format(p[1], int(p[2]), key, len(pl)) + (ws.xor_mask(pl, key) if key else pl)
+                wire, _ = ws.wire_of(ots)
+                if not exp.startswith(wire):
+                    return 'framesocket-write: bytes on the wire are not a prefix of the independently encoded frames'
+                if ots and ots[-1].res == 'ok' and wire != exp:
+                    return 'framesocket-flush: flush Ok with %d of %d bytes sent' % (len(wire), len(exp))
+            else:
+                inbound = b''.join(bytes.fromhex(e[2:]) for ot in ots for e in ot.events if e.startswith('R:') and e not in ('R:eof', 'R:EMPTYBUF') and not e.startswith('R:e:'))
+                frames, _ = ws.parse_frames(inbound)
+                got = [ot.res for ot in ots if ot.res.startswith('ok:F:')]
+                exp = ['ok:F:%s:%d:%s:%s' % (''.join('1' if b else '0' for b in (fr.fin, fr.rsv & 4, fr.rsv & 2, fr.rsv & 1)), fr.opcode,
+                                             fr.key.hex() if fr.key else '-', ws.hx(fr.raw_payload)) for fr in frames if fr.complete]
+                if got != exp[:len(got)] or (len(got) < len(exp) and not any(ot.res.startswith('err:proto') for ot in ots)):
+                    return 'framesocket-read: frames returned %r, independent parser gives %r' % (got[:3], exp[:3])
+            return None
         if f[0] == 'HP':
             exp = py_parse(ws.unhx(f[2]))
             if trace != exp:
